@@ -1063,7 +1063,15 @@ LEVEL_TEXT = ("Theorems (Props/C17.v, structural induction over arbitrarily nest
               "round-trips iff no str equals 'NoneType'; complete save;load pipelines for h5/npz/json under "
               "explicit store contracts; all nine convert pairs preserve content (values; dtype+shape of "
               "arrays; dict structure). The model is compared with io.py (pure dict functions and real files "
-              "in all three formats and six conversions) on every run, on a valid and a malformed stream.")
+              "in all three formats and six conversions) on every run, on a valid and a malformed stream. "
+              "Fault paths (Model/SimToFile.v: Simulation.to_dict/copy/to_file and emg3d.save with the simulation "
+              "as a member, the transient attribute through which to_file hands `what` to to_dict, every stage "
+              "at which a call can raise): by induction over ALL histories of successful and failed calls the "
+              "attribute is absent afterwards and every call stores the level its OWN `what` names (default "
+              "'computed'), wherever io.save raises; the code before e6d5394 is kept as a variant with "
+              "*_refuted theorems. The model is compared on every run with the implementation on histories "
+              "[failing call; next serialisation] over every fault x route, and the loaded object with the "
+              "simulation itself.")
 LEVEL_NOTE = ("Hand model tied by correspondence only (no translator). Store contracts (np.savez/np.load, "
               "h5py create_dataset/ds[()], json.dump/load) are Section hypotheses; their concrete instances in "
               "Model/Codec.v are validated against the real libraries by the file-level correspondence. The "
@@ -1072,8 +1080,15 @@ LEVEL_NOTE = ("Hand model tied by correspondence only (no translator). Store con
               "decided only on a stated finite table (key_guard_syntactic_bounded). NOT modelled: "
               "to_dict/from_dict of the twelve registered classes (DESIGN's serialize_deserialize_C) and "
               "_dict_deserialize -- these are checked end to end on randomly composed objects (no theorem); "
-              "the three meta entries of save(); IEEE bit patterns (-0.0 = 0.0, one NaN).")
-TRUSTED = ["Model/Codec.v as a description of emg3d/io.py and of numpy/h5py/json leaf behaviour "
+              "the three meta entries of save(); IEEE bit patterns (-0.0 = 0.0, one NaN). The fault-path model "
+              "is a control-flow model: WHICH stage of a call fails (call binding, a member's serialisation, "
+              "extension, writer) is an input of the model, classified by the harness per fault (e.g. np.savez "
+              "pickles object()/set, so npz gets a function as the unstorable member); the model says what is "
+              "left behind and what the following calls store. 'Transient attribute present' is observed as any "
+              "name in vars(instance) that was not there after a first successful serialisation.")
+TRUSTED = ["Model/SimToFile.v as a description of Simulation.to_dict/to_file and of the stages of io.save "
+           "(validated on every run by the fault-path correspondence, not derived from the source)",
+           "Model/Codec.v as a description of emg3d/io.py and of numpy/h5py/json leaf behaviour "
            "(validated on every run by the correspondence, not derived from the source)",
            "render/conv twins in py/props/c17.py (canonical text of Python values)"]
 ASSUMES = ["keys and str values are printable ASCII without consecutive blanks in the correspondence",
@@ -1121,6 +1136,8 @@ def prebuild_keys(ctx):
             keys.append(k)
     keys += [k for k in META + ('synthetic', 'residual', 'weights', 'gradient', 'misfit', 'computed')
              if k not in keys]
+    keys = sorted(keys)          # the theorem is a forall over the list: a canonical order keeps the file
+    #                              (and its .vo) unchanged when only the iteration order of a set changes
     if len(keys) < 40:
         raise RuntimeError(f"only {len(keys)} keys extracted from the classes' to_dict")
     text = ("(* GENERATED by py/props/c17.py (prebuild_keys) from the to_dict methods of the classes in\n"
@@ -1292,23 +1309,78 @@ def e2e_stream(rng, kinds_n, tmp, tag, convert_all=True):
     return fails, trips, per_kind
 
 
+def coq_start(named_texts, logdir):
+    """Start one coqc per case file and return at once.  Called from the MAIN thread while no HDF5 file
+    is open: Popen returns only after the child has exec'ed, i.e. after it has closed the descriptors it
+    inherited.  (Spawning from a worker thread while the main thread writes h5 files lets a forked child
+    hold a just-written file's descriptor for a moment; HDF5's non-blocking flock on re-opening that file
+    then fails with BlockingIOError -- seen once under heavy load, a false alarm of the harness.)"""
+    import subprocess
+    d = os.path.join(V.COQ, 'Corr')
+    os.makedirs(d, exist_ok=True)
+    procs = []
+    for name, text in named_texts:
+        with open(os.path.join(d, name + '.v'), 'w') as f:
+            f.write(text)
+        log = open(os.path.join(logdir, name + '.coqlog'), 'w')
+        p = subprocess.Popen(['coqc', '-Q', '.', 'V', '-w', 'none', os.path.join('Corr', name + '.v')],
+                             cwd=V.COQ, stdout=log, stderr=subprocess.STDOUT, stdin=subprocess.DEVNULL)
+        procs.append((name, p, log))
+    return procs
+
+
+def coq_collect(procs, timeout=1200):
+    """{name: (rc, output)} of the processes started by coq_start."""
+    import subprocess
+    import time as _time
+    res, deadline = {}, _time.time() + timeout
+    d = os.path.join(V.COQ, 'Corr')
+    for name, p, log in procs:
+        try:
+            rc = p.wait(timeout=max(1.0, deadline - _time.time()))
+            tail = ''
+        except subprocess.TimeoutExpired:
+            p.kill()
+            p.wait()
+            rc, tail = 124, f"\nTIMEOUT after {timeout}s"
+        log.close()
+        with open(log.name) as f:
+            res[name] = (rc, f.read() + tail)
+        for ext in ('.vo', '.vok', '.vos', '.glob'):
+            try:
+                os.remove(os.path.join(d, name + ext))
+            except OSError:
+                pass
+        try:
+            os.remove(os.path.join(d, '.' + name + '.aux'))
+        except OSError:
+            pass
+    return res
+
+
 def correspondence(ctx):
     rng = ctx.rng
     n = 900 if ctx.thorough else 150
     maxdepth = 6 if ctx.thorough else 4
-    per = 12
+    per = 50         # cases per Coq file (each coqc start-up pays 1 s idle, ~8 s under load, for loading the libraries)
     dis = []
     hist = {'stream': {}, 'depth': {}, 'leaf_kinds': {}, 'malformed': {}, 'outcome': {}}
     with tempfile.TemporaryDirectory(prefix='c17_') as tmp:
         cases = gen_cases(rng, n, maxdepth, tmp)
-        res = V.coq_eval_many(coq_files(cases, 'c17_k', per), timeout=1200)
-        n_eval = compare_cases(cases, res, 'c17_k', per, dis, hist)
+        plans, pinfo = sim_fault_plans(rng, ctx.thorough)
+        # the model is evaluated by coqc sub-processes WHILE the implementation-side streams run
+        procs = coq_start(coq_files(cases, 'c17_k', per) + [('c17_fault', fault_coq_text(plans))], tmp)
+        # fault paths: a save / to_file that raises, then every route, on the same object
+        fs = fault_stream(ctx, rng, tmp, 'f', plans=(plans, pinfo))
         # oracle-free sanity stream: objects of every registered class through real files
         kinds_n = [(k, 2 if ctx.thorough else 0) for k in E2E_KINDS]
         fails, trips, per_kind = e2e_stream(rng, kinds_n, tmp, 'e', convert_all=ctx.thorough)
         # histories on the same object: serialise; mutate through the public API; save again; load
         hfails, htrips = history_stream(rng, tmp, 'h', reps=2 if ctx.thorough else 1)
-        trips += htrips
+        trips += htrips + fs['loads']
+        res = coq_collect(procs, 1200)
+        n_eval = compare_cases(cases, res, 'c17_k', per, dis, hist)
+        n_eval += fault_compare(res, fs, dis)
     seen = set()
     for c in cases:
         f = c['feat']
@@ -1322,7 +1394,18 @@ def correspondence(ctx):
             seen.add(c['impl']['ser'])
     hist['e2e_round_trips_per_class'] = per_kind
     hist['history_loads'] = htrips
+    hist['fault_paths'] = dict(fs['info'], loads=fs['loads'])
     seen_h = set()
+    for x in fs['fails']:
+        if x['signature'] in seen_h:
+            continue
+        seen_h.add(x['signature'])
+        dis.append({'what': 'fault path on one object: after a save/to_file that RAISED, what the next '
+                            'serialisation stores differs from the CURRENT object / from what THAT call requested '
+                            '(implementation-side, no model)',
+                    'signature': x['signature'],
+                    'case': {k: x.get(k) for k in ('container', 'history', 'recipe', 'case_seed', 'variant', 'plan')},
+                    'impl': x['diff'], 'model': 'n/a (required: equal object; results as requested by the current call)'})
     for x in hfails:
         if x['signature'] in seen_h:
             continue
@@ -1359,7 +1442,15 @@ def correspondence(ctx):
                  "are compared with the model's vm_compute results via a canonical rendering. distinct = distinct "
                  "serialised inputs; non-trivial = contains a leaf other than int/float/str/bool or a malformed "
                  "feature. Plus an oracle-free end-to-end stream: objects of every registered class through "
-                 "3 formats + 6 conversions (counted in evaluations, reported per class in the histogram)."),
+                 "3 formats + 6 conversions (counted in evaluations, reported per class in the histogram). "
+                 "Plus the fault-path stream: on computed simulations every way a to_file / emg3d.save / to_dict "
+                 "call can RAISE (unknown extension, member the writer cannot store, unknown what, missing "
+                 "directory, member whose to_dict / str(key) raises before or after the simulation, non-str or "
+                 "reserved name; h5/npz/json) x the following serialisation routes (save x3, to_file(what) x3, "
+                 "copy(), copy(what), to_dict()/from_dict, nested dict, simulation twice), each operation compared "
+                 "with Model/SimToFile.v (outcome, stored level class, transient attribute) and the result with the "
+                 "object itself under the level requested by THAT call; the same faults on TensorMesh, Model, "
+                 "Field, Survey, nested dict (histogram: fault_paths)."),
         'samples': [{'stream': c['stream'], 'dict': repr(c['d'])[:400], 'rt_json': c['impl'].get('rt_json', '')[:200]}
                     for c in cases[:4]],
         'traces_validated_against_impl': n_eval,
@@ -1448,6 +1539,33 @@ def search(ctx, broken):
                 break
         fails, trips, per_kind = e2e_stream(rng, [(k, n_obj) for k in E2E_KINDS], tmp, 's')
         hfails, htrips = history_stream(rng, tmp, 'sh', reps=3 if ctx.thorough else 1)
+        try:
+            fs = fault_stream(ctx, rng, tmp, 'sf', with_model=False)
+        except Exception as e:
+            ctx.notes.append(f"searcher: fault-path stream could not run ({type(e).__name__}: {str(e)[:200]})")
+            fs = {'fails': [], 'loads': 0, 'info': {}}
+    seen_f = set()
+    for x in fs['fails']:
+        key = (x['container'], x['signature'].rsplit(': ', 1)[-1])
+        if key in seen_f or len(seen_f) >= 4:
+            continue
+        seen_f.add(key)
+        if x['container'] == 'Simulation' and len(x['plan']) > 1:
+            # shrink: does the last (failing call, next serialisation) pair alone fail on a fresh simulation?
+            try:
+                with tempfile.TemporaryDirectory(prefix='c17m_') as tmp2:
+                    h = sim_fault_history(x['case_seed'], x['variant'], [tuple(x['plan'][-1])], tmp2, 'm')
+                if h['fails']:
+                    x = dict(x, plan=[list(x['plan'][-1])], history=h['fails'][0]['history'],
+                             diff=h['fails'][0]['diff'], signature=h['fails'][0]['signature'])
+            except Exception:
+                pass
+        hits.append({'signature': x['signature'], 'kind': 'fault-history', 'container': x['container'],
+                     'history': x['history'], 'recipe': x['recipe'], 'case_seed': x['case_seed'],
+                     'variant': x['variant'], 'plan': x['plan'], 'observed': x['diff'],
+                     'required': 'after a save/to_file that raised, the next save/copy/to_dict/to_file of the same '
+                                 'object stores its CURRENT state with the results requested by that call '
+                                 "(default 'computed'), and load returns an equal object"})
     seen = set()
     for x in fails:
         if x['signature'] in seen:
@@ -1462,7 +1580,8 @@ def search(ctx, broken):
                      'first': x['first'], 'mut_index': x['mut_index'], 'variant': x['variant'],
                      'observed': x['diff'], 'required': 'what is saved and loaded is the CURRENT state of the object'})
     ctx.notes.append(f"searcher: {n_dict} guard-respecting dicts x 3 formats (+1 conversion each), "
-                     f"{trips} class round trips {per_kind}, {htrips} loads in save/mutate/save/load histories")
+                     f"{trips} class round trips {per_kind}, {htrips} loads in save/mutate/save/load histories, "
+                     f"{fs['loads']} loads in fault-path histories {fs['info']}")
     return hits
 
 
@@ -1472,6 +1591,12 @@ def replay(ctx, payload):
     if not fi or 'case_seed' not in fi:
         return False
     with tempfile.TemporaryDirectory(prefix='c17r_') as tmp:
+        if fi.get('kind') == 'fault-history':
+            if fi['container'] == 'Simulation':
+                h = sim_fault_history(fi['case_seed'], fi['variant'], [tuple(q) for q in fi['plan']], tmp, 'r')
+                return not h['fails']
+            f, _ = generic_fault_case(fi['case_seed'], fi['container'], fi['variant'], tmp, 'r')
+            return f is None
         if fi.get('kind') == 'history':
             f, _ = history_case(_random.Random(fi['case_seed']), fi['container'], fi['first'], fi['mut_index'],
                                 tmp, 'r', fi['variant'])
@@ -1659,3 +1784,506 @@ def history_stream(rng, tmp, tag, reps=1):
                         f.update(case_seed=seed, first=first, mut_index=mi, variant=variant)
                         fails.append(f)
     return fails, trips
+
+
+# ======================================================================
+# FAULT PATHS: a save / to_file that RAISES, then the same object is
+# serialised again through every route, loaded, and compared
+#   (a) with the Coq model Model/SimToFile.v (outcome of every operation and
+#       whether a transient attribute is left on the instance), and
+#   (b) with the object itself (independent oracle: equal object, equal
+#       dtypes, computed results present as requested by the CURRENT call's
+#       `what`, default 'computed').
+# ======================================================================
+F_HEADER = """From Coq Require Import List String Bool.
+From V Require Import Model.SimToFile.
+Import ListNotations.
+Set Printing Width 100000000.
+Set Printing Depth 100000000.
+Local Open Scope string_scope.
+"""
+F_WHATS = ['plain', 'results', 'all', 'computed']
+W_COQ = {'plain': '(W Plain)', 'results': '(W Results)', 'all': '(W All)', 'computed': '(W Computed)'}
+W_CLS = {'plain': 'P', 'results': 'R', 'all': 'F', 'computed': 'F'}
+
+
+class _BadKey:
+    def __str__(self):
+        raise RuntimeError('key cannot be converted')
+
+    __repr__ = object.__repr__
+
+
+def _bad_member():
+    """An instance of a registered class (a user subclass) whose to_dict raises."""
+    import emg3d
+
+    class FieldNoDict(emg3d.Field):
+        def to_dict(self, copy=False):
+            raise NotImplementedError('this member cannot be serialised')
+    return FieldNoDict(emg3d.TensorMesh([[1., 1.], [1., 1.], [1., 1.]], (0, 0, 0)), frequency=1.0)
+
+
+def _coq_b(b):
+    return 'true' if b else 'false'
+
+
+def _c_tofile(w, user=(), name='NFresh', ext_ok=True, write_ok=True):
+    return (f"OToFile (mk_tofile {W_COQ.get(w, 'WBad')} [{'; '.join(user)}] {name} "
+            f"{_coq_b(ext_ok)} {_coq_b(write_ok)})")
+
+
+def _c_save(members, kw_ok=True, ext_ok=True, write_ok=True):
+    return f"OSave (mk_save {_coq_b(kw_ok)} [{'; '.join(members)}] {_coq_b(ext_ok)} {_coq_b(write_ok)})"
+
+
+def _unser(i, fmt):
+    """A value no format can store (np.savez pickles objects and sets, so npz gets a function)."""
+    if fmt == 'npz':
+        return 'lambda', (lambda: 1)
+    return [('object()', object()), ('lambda', (lambda: 1)), ('set', {1, 2})][i % 3]
+
+
+def sim_fault_table():
+    """Every way a serialisation call of a Simulation can RAISE (or silently not store it).
+    Entry: (label, coq-op builder(what), call(sim, tmp, tag, what), keys of the members that ARE the
+    simulation in kwargs order, level each of them is expected to be stored with).
+    Deterministic enumeration; nothing here refers to how emg3d implements to_file."""
+    import emg3d
+    T = []
+
+    def add(label, coq, call, keys=('simulation',), levels=None):
+        T.append({'label': label, 'coq': coq, 'call': call, 'keys': keys, 'levels': levels})
+    # 1. unknown extension
+    for ext in ('hdf5', 'h5x', 'JSON'):
+        add(f"to_file('x.{ext}', what=W)", lambda w: _c_tofile(w, ext_ok=False),
+            lambda s, tmp, tag, w, ext=ext: s.to_file(os.path.join(tmp, f"{tag}.{ext}"), what=w, verb=0))
+    for i, fmt in enumerate(FMTS):
+        # 2. an extra member that the writer cannot store
+        nm, val = _unser(i, fmt)
+        add(f"to_file('x.{fmt}', what=W, extra={nm})", lambda w: _c_tofile(w, ['MGood'], write_ok=False),
+            lambda s, tmp, tag, w, fmt=fmt, i=i: s.to_file(os.path.join(tmp, f"{tag}.{fmt}"), what=w, verb=0,
+                                                          extra=_unser(i, fmt)[1]))
+        # 3. unknown `what`
+        add(f"to_file('x.{fmt}', what='bogus')", lambda w: _c_tofile('bogus'),
+            lambda s, tmp, tag, w, fmt=fmt: s.to_file(os.path.join(tmp, f"{tag}.{fmt}"), what='bogus', verb=0))
+        # 4. directory does not exist
+        add(f"to_file('no/such/dir/x.{fmt}', what=W)", lambda w: _c_tofile(w, write_ok=False),
+            lambda s, tmp, tag, w, fmt=fmt: s.to_file(os.path.join(tmp, 'no', 'such', 'dir', f"{tag}.{fmt}"),
+                                                      what=w, verb=0))
+        # 5. a member whose own serialisation raises (before the simulation is reached)
+        mk = [lambda: _bad_member(), lambda: {'deep': {'member': _bad_member()}}, lambda: {_BadKey(): 1.0}][i]
+        ml = ['<registered class whose to_dict raises>', '{deep: {member: <to_dict raises>}}',
+              '{<key whose str() raises>: 1.0}'][i]
+        add(f"to_file('x.{fmt}', what=W, extra={ml})", lambda w: _c_tofile(w, ['MBad']),
+            lambda s, tmp, tag, w, fmt=fmt, mk=mk: s.to_file(os.path.join(tmp, f"{tag}.{fmt}"), what=w, verb=0,
+                                                            extra=mk()))
+        # 6. `name` is not a str (call binding of io.save raises)
+        nv = [1, None, 2.5][i]
+        add(f"to_file('x.{fmt}', what=W, name={nv!r})", lambda w: _c_tofile(w, name='NNonStr'),
+            lambda s, tmp, tag, w, fmt=fmt, nv=nv: s.to_file(os.path.join(tmp, f"{tag}.{fmt}"), what=w, name=nv,
+                                                            verb=0))
+    # 7. `name` is one of the keywords io.save pops: the simulation is never serialised
+    add("to_file('x.h5', what=W, name='verb')", lambda w: _c_tofile(w, name='NReserved', write_ok=False),
+        lambda s, tmp, tag, w: s.to_file(os.path.join(tmp, f"{tag}.h5"), what=w, name='verb'), keys=())
+    add("to_file('x.npz', what=W, name='compression')", lambda w: _c_tofile(w, name='NReserved'),
+        lambda s, tmp, tag, w: s.to_file(os.path.join(tmp, f"{tag}.npz"), what=w, name='compression', verb=0),
+        keys=())
+    # 8. emg3d.save itself raising with the simulation among the members
+    add("emg3d.save('x.hdf5', sim=sim)", lambda w: _c_save(['MSelf'], ext_ok=False),
+        lambda s, tmp, tag, w: emg3d.save(os.path.join(tmp, f"{tag}.hdf5"), verb=0, sim=s))
+    add("emg3d.save('x.json', bad=object(), sim=sim)", lambda w: _c_save(['MGood', 'MSelf'], write_ok=False),
+        lambda s, tmp, tag, w: emg3d.save(os.path.join(tmp, f"{tag}.json"), verb=0, bad=object(), sim=s))
+    add("emg3d.save('x.h5', sim=sim, bad=<to_dict raises>)", lambda w: _c_save(['MSelf', 'MBad']),
+        lambda s, tmp, tag, w: emg3d.save(os.path.join(tmp, f"{tag}.h5"), verb=0, sim=s, bad=_bad_member()))
+    add("emg3d.save('x.npz', bad=<to_dict raises>, sim=sim)", lambda w: _c_save(['MBad', 'MSelf']),
+        lambda s, tmp, tag, w: emg3d.save(os.path.join(tmp, f"{tag}.npz"), verb=0, bad=_bad_member(), sim=s))
+    add("emg3d.save('x.h5', **{1: sim})", lambda w: _c_save(['MSelf'], kw_ok=False),
+        lambda s, tmp, tag, w: emg3d.save(os.path.join(tmp, f"{tag}.h5"), **{'verb': 0, 1: s}))
+    # 9. to_dict / copy with an unknown `what`
+    add("to_dict('bogus')", lambda w: "OToDict WBad", lambda s, tmp, tag, w: s.to_dict('bogus'))
+    add("copy('bogus')", lambda w: "OToDict WBad", lambda s, tmp, tag, w: s.copy('bogus'))
+    return T
+
+
+def sim_route_table():
+    """Every route by which a Simulation is serialised.  Entry: (label, coq-op builder(w2),
+    run(sim, tmp, tag, w2) -> list of (loaded simulation, level requested by THIS call))."""
+    import emg3d
+    R = []
+
+    def load(p):
+        with warnings.catch_warnings(record=True) as wl:
+            warnings.simplefilter('always')
+            with contextlib.redirect_stdout(_io.StringIO()):
+                out = emg3d.load(p, verb=0)
+        bad = [str(x.message) for x in wl if 'Could not de-serialize' in str(x.message)]
+        if bad:
+            raise RuntimeError(bad[0])
+        return out
+    for fmt in FMTS:
+        def r_save(s, tmp, tag, w2, fi=0, fmt=fmt):
+            p = os.path.join(tmp, f"{tag}.{fmt}")
+            emg3d.save(p, verb=0, sim=s)
+            return [(load(p)['sim'], 'computed')]
+        R.append({'label': f"emg3d.save('x.{fmt}', sim=sim); load", 'coq': lambda w2: _c_save(['MSelf']), 'run': r_save})
+
+        def r_tofile(s, tmp, tag, w2, fi=0, fmt=fmt):
+            p = os.path.join(tmp, f"{tag}.{fmt}")
+            s.to_file(p, what=w2, verb=0)
+            return [(emg3d.Simulation.from_file(p, verb=0), w2)]
+        R.append({'label': f"to_file('x.{fmt}', what=W2); from_file", 'coq': lambda w2: _c_tofile(w2), 'run': r_tofile})
+    R.append({'label': 'copy()', 'coq': lambda w2: "OToDict (W Computed)",
+              'run': lambda s, tmp, tag, w2, fi=0: [(s.copy(), 'computed')]})
+    R.append({'label': 'copy(W2)', 'coq': lambda w2: f"OToDict {W_COQ[w2]}",
+              'run': lambda s, tmp, tag, w2, fi=0: [(s.copy(w2), w2)]})
+    R.append({'label': 'from_dict(to_dict())', 'coq': lambda w2: "OToDict (W Computed)",
+              'run': lambda s, tmp, tag, w2, fi=0: [(emg3d.Simulation.from_dict(s.to_dict(copy=True)), 'computed')]})
+    R.append({'label': 'from_dict(to_dict(W2))', 'coq': lambda w2: f"OToDict {W_COQ[w2]}",
+              'run': lambda s, tmp, tag, w2, fi=0: [(emg3d.Simulation.from_dict(s.to_dict(w2, True)), w2)]})
+
+    def r_nested(s, tmp, tag, w2, fi=0):
+        fmt = FMTS[fi % 3]
+        p = os.path.join(tmp, f"{tag}.{fmt}")
+        emg3d.save(p, verb=0, n=3, sub={'deep': {'sim': s}, 'x': 1.5})
+        return [(load(p)['sub']['deep']['sim'], 'computed')]
+    R.append({'label': "emg3d.save(f, n=3, sub={'deep': {'sim': sim}}); load", 'coq': lambda w2: _c_save(['MGood', 'MSelf', 'MGood']),
+              'run': r_nested})
+
+    def r_twice(s, tmp, tag, w2, fi=0):
+        fmt = FMTS[(fi + 1) % 3]
+        p = os.path.join(tmp, f"{tag}.{fmt}")
+        emg3d.save(p, verb=0, sim=s, again=s)
+        out = load(p)
+        return [(out['sim'], 'computed'), (out['again'], 'computed')]
+    R.append({'label': "emg3d.save(f, sim=sim, again=sim); load", 'coq': lambda w2: _c_save(['MSelf', 'MSelf']),
+              'run': r_twice})
+
+    def r_tofile_twice(s, tmp, tag, w2, fi=0):
+        # the simulation also among the user's members: to_file's `what` goes to the FIRST
+        # serialisation (the user's member), the named entry gets the default -- the model says so
+        fmt = FMTS[(fi + 2) % 3]
+        p = os.path.join(tmp, f"{tag}.{fmt}")
+        s.to_file(p, what=w2, verb=0, again=s)
+        out = load(p)
+        return [(out['again'], w2), (out['simulation'], w2)]
+    R.append({'label': "to_file(f, what=W2, again=sim); load", 'coq': lambda w2: _c_tofile(w2, ['MSelf']),
+              'run': r_tofile_twice, 'levels': lambda w2: [W_CLS[w2], 'F']})
+    return R
+
+
+def level_class(new):
+    """Observable class of what a (computed) simulation was stored with: F(ields) / R(esults) / P(lain)."""
+    ef = getattr(new, '_dict_efield', None)
+    if ef and any(v is not None for per in ef.values() for v in per.values()):
+        return 'F'
+    if getattr(new, '_computed', False):
+        return 'R'
+    return 'P'
+
+
+def f_make_sim(rng, variant):
+    """A COMPUTED simulation (fields, synthetic data; misfit for even variants)."""
+    for _ in range(20):
+        sim, recipe = e_simulation(rng, True, variant)
+        if level_class(sim) == 'F' and sim._computed:
+            return sim, recipe
+    raise RuntimeError('could not build a computed simulation')
+
+
+def sim_fault_history(seed, variant, plan, tmp, tag):
+    """Run the history `plan` = [(fault index, fault-what index, route index, route-what index), ...]
+    on ONE computed simulation: fault, route, fault, route, ...
+    Returns dict(ops=[coq terms], observed='X-;D[F]-;...', steps=[labels], fails=[...], loads=int)."""
+    import random as _random
+    rng = _random.Random(seed)
+    sim, recipe = f_make_sim(rng, variant)
+    FT, RT = sim_fault_table(), sim_route_table()
+    with warnings.catch_warnings(), contextlib.redirect_stdout(_io.StringIO()):
+        warnings.simplefilter('ignore')
+        sim.to_dict()                       # warm-up: whatever a first SUCCESSFUL serialisation / comparison
+        import emg3d                        # legitimately caches on the instance is there before the baseline
+        try:
+            emg3d.save(os.path.join(tmp, f"{tag}_warm.npz"), verb=0, o=sim)
+            obj_diff(sim, sim.copy(), 'computed')
+        except Exception:                   # warm-up only; the routes below report what does not work
+            pass
+    base_attrs = set(vars(sim))
+    base_view = tree_of(sim, 'computed')
+    ops, obs, steps, fails, loads = [], [], [], [], 0
+
+    def flag():
+        extra = sorted(set(vars(sim)) - base_attrs)
+        return ('+' if extra else '-'), extra
+
+    def fail(i, what, diff):
+        fails.append({'kind': 'Simulation', 'history': list(steps[:i + 1]), 'recipe': repr(recipe)[:400],
+                      'diff': str(diff)[:600], 'step': i,
+                      'signature': f"C17: fault history [{'; '.join(steps[max(0, i - 1):i + 1])}] on Simulation: "
+                                   f"{what}"})
+    for (fi, fwi, ri, rwi) in plan:
+        f = FT[fi % len(FT)]
+        r = RT[ri % len(RT)]
+        w, w2 = F_WHATS[fwi % 4], F_WHATS[rwi % 4]          # (formats of the multi-member routes: rwi % 3)
+        # ---- the call that (usually) raises
+        label = f['label'].replace('what=W', f"what={w!r}")
+        steps.append(label)
+        ops.append(f['coq'](w))
+        k = len(steps) - 1
+        try:
+            with warnings.catch_warnings(), contextlib.redirect_stdout(_io.StringIO()):
+                warnings.simplefilter('ignore')
+                f['call'](sim, tmp, f"{tag}_{k}", w)
+            o = 'D[' + ','.join(W_CLS[w] for _ in f['keys']) + ']'     # stored (checked below via routes only)
+            steps[-1] += ' -> returned'
+        except Exception as e:
+            o = 'X'
+            steps[-1] += f" -> {type(e).__name__}"
+        fl, extra = flag()
+        obs.append(o + fl)
+        d = tree_diff(base_view, tree_of(sim, 'computed'))
+        if d:
+            fail(k, 'the failed call changed the simulation', d)
+            base_view = tree_of(sim, 'computed')
+        # ---- the next serialisation of the same simulation
+        label = r['label'].replace('W2', repr(w2))
+        steps.append(label)
+        ops.append(r['coq'](w2))
+        k = len(steps) - 1
+        try:
+            with warnings.catch_warnings(), contextlib.redirect_stdout(_io.StringIO()):
+                warnings.simplefilter('ignore')
+                got = r['run'](sim, tmp, f"{tag}_{k}", w2, rwi)
+            loads += len(got)
+            classes = [level_class(n) for n, _ in got]
+            o = 'D[' + ','.join(classes) + ']'
+            for (n, lvl), cls in zip(got, classes):
+                # public-attribute trees first (obj_diff evaluates .misfit, which makes a simulation that
+                # came back WITHOUT results compute them)
+                d = tree_diff(tree_of(sim, lvl), tree_of(n, lvl)) or obj_diff(sim, n, lvl)
+                if d:
+                    fail(k, str(d).split(':')[0][:70],
+                         f"this call requested what={lvl!r}; what came back has content class '{cls}' "
+                         f"(F fields+results / R results only / P plain) and differs from the simulation: {d}")
+                    break
+        except Exception as e:
+            o = 'X'
+            fail(k, f"raises {type(e).__name__}", f"{type(e).__name__}: {e}")
+        fl, extra = flag()
+        obs.append(o + fl)
+    return {'ops': ops, 'observed': ';'.join(obs), 'steps': steps, 'fails': fails, 'loads': loads,
+            'recipe': recipe}
+
+
+def sim_fault_plans(rng, thorough):
+    """Deterministic enumeration: every fault x (quick: 4, thorough: all) routes, every fault-what and
+    route-what level; only the rotation offsets and the simulations come from rng."""
+    nF, nR = len(sim_fault_table()), len(sim_route_table())
+    nsim = 3 if thorough else 2
+    per_fault = nR if thorough else 4
+    off = rng.randint(0, 10 ** 6)
+    plans = [[] for _ in range(nsim)]
+    pairs = set()
+    for fi in range(nF):
+        for j in range(per_fault):
+            ri = (off + fi * 5 + j * (1 if thorough else 3)) % nR
+            fwi = (fi + j + off) % 4
+            if thorough and j % 2:
+                fwi = (fwi % 2)                 # 'plain' / 'results': the levels that LOSE content when stale
+            elif not thorough:
+                fwi = (fi + j + off) % 2 if j < 3 else 2 + (fi + off) % 2
+            rwi = (fi + 2 * j + off // 7) % 12
+            plans[(fi + j) % nsim].append((fi, fwi, ri, rwi))
+            pairs.add((fi, ri))
+    return plans, {'faults': nF, 'routes': nR, 'fault_route_pairs': len(pairs)}
+
+
+def generic_fault_case(seed, kind, variant, tmp, tag):
+    """Other containers (no Coq state machine: the model of their entry points is stateless): io.save /
+    Survey.to_file raising in every stage, then every route; loaded object == CURRENT object and no
+    attribute left on the instance."""
+    import random as _random
+    import emg3d
+    rng = _random.Random(seed)
+    obj, recipe = h_make(rng, kind, variant)
+    targets = [obj] if not isinstance(obj, dict) else [obj['sub']['model'], obj['sub']['deep']['field'], obj['grid']]
+    kw = (lambda: dict(obj)) if isinstance(obj, dict) else (lambda: {'o': obj})
+
+    def snapshot():
+        return [set(vars(t)) for t in targets]
+    with warnings.catch_warnings(), contextlib.redirect_stdout(_io.StringIO()):
+        warnings.simplefilter('ignore')
+        for t in targets:          # warm-up: lazily cached attributes (e.g. face areas) exist before the baseline
+            t.to_dict()
+            try:
+                emg3d.save(os.path.join(tmp, f"{tag}_warm.npz"), verb=0, o=t)
+                obj_diff(t, t.copy(), None)
+            except Exception:      # warm-up only
+                pass
+    base = snapshot()
+    faults = [("save('x.hdf5')", lambda i: emg3d.save(os.path.join(tmp, f"{tag}{i}.hdf5"), verb=0, **kw()))]
+    for j, fmt in enumerate(FMTS):
+        faults += [
+            (f"save('no/dir/x.{fmt}')",
+             lambda i, fmt=fmt: emg3d.save(os.path.join(tmp, 'no', 'dir', f"{tag}{i}.{fmt}"), verb=0, **kw())),
+            (f"save('x.{fmt}', ..., zz_bad={_unser(j, fmt)[0]})",
+             lambda i, fmt=fmt, j=j: emg3d.save(os.path.join(tmp, f"{tag}{i}.{fmt}"), verb=0,
+                                                **kw(), zz_bad=_unser(j, fmt)[1])),
+            (f"save('x.{fmt}', ..., zz_bad=<to_dict raises>)",
+             lambda i, fmt=fmt: emg3d.save(os.path.join(tmp, f"{tag}{i}.{fmt}"), verb=0, **kw(), zz_bad=_bad_member())),
+            (f"save('x.{fmt}', aa_bad=<to_dict raises>, ...)",
+             lambda i, fmt=fmt: emg3d.save(os.path.join(tmp, f"{tag}{i}.{fmt}"), verb=0, aa_bad=_bad_member(), **kw())),
+        ]
+    if kind == 'Survey':
+        faults += [("to_file('x.hdf5')", lambda i: obj.to_file(os.path.join(tmp, f"{tag}{i}.hdf5"), verb=0)),
+                   ("to_file('x.h5', name=1)", lambda i: obj.to_file(os.path.join(tmp, f"{tag}{i}.h5"), name=1, verb=0)),
+                   ("to_file('no/dir/x.json')",
+                    lambda i: obj.to_file(os.path.join(tmp, 'no', 'dir', f"{tag}{i}.json"), verb=0))]
+    routes = [f"save+load {f}" for f in FMTS] + ([] if isinstance(obj, dict) else ['copy()', 'from_dict(to_dict())'])
+    steps, loads = [], 0
+    off = rng.randint(0, 100)
+
+    def fail(what, diff):
+        return {'kind': kind, 'history': list(steps), 'recipe': repr(recipe)[:400], 'diff': str(diff)[:600],
+                'signature': f"C17: fault history [{'; '.join(steps[-2:])}] on {kind}: {what}"}
+    for i, (fl, fcall) in enumerate(faults):
+        try:
+            with warnings.catch_warnings(), contextlib.redirect_stdout(_io.StringIO()):
+                warnings.simplefilter('ignore')
+                fcall(i)
+            steps.append(fl + ' -> returned')
+        except Exception as e:
+            steps.append(fl + f" -> {type(e).__name__}")
+        if snapshot() != base:
+            extra = [sorted(a - b) for a, b in zip(snapshot(), base)]
+            return fail('attributes left on the instance', extra), loads
+        route = routes[(i + off) % len(routes)]
+        steps.append(route)
+        try:
+            with warnings.catch_warnings(record=True) as wl:
+                warnings.simplefilter('always')
+                with contextlib.redirect_stdout(_io.StringIO()):
+                    if route.startswith('save+load'):
+                        f = route.split()[-1]
+                        p = os.path.join(tmp, f"{tag}r{i}.{f}")
+                        emg3d.save(p, verb=0, **kw())
+                        out = emg3d.load(p, verb=0)
+                    elif route == 'copy()':
+                        out = {'o': obj.copy()}
+                    else:
+                        out = {'o': type(obj).from_dict(obj.to_dict(copy=True))}
+            loads += 1
+            bad = [str(x.message) for x in wl if 'Could not de-serialize' in str(x.message)]
+            if bad:
+                return fail('could not de-serialize', bad[0]), loads
+            if isinstance(obj, dict):
+                for k in META:
+                    out.pop(k, None)
+                d = tree_diff(tree_of(obj), tree_of(out), root_unordered=route.endswith('h5')) or nested_types(obj, out)
+            else:
+                d = obj_diff(obj, out['o'], None)
+            if d:
+                return fail(str(d).split(':')[0][:70], d), loads
+        except Exception as e:
+            return fail(f"raises {type(e).__name__}", f"{type(e).__name__}: {e}"), loads
+    return None, loads
+
+
+F_GENERIC_KINDS = ['TensorMesh', 'Model', 'Field', 'Survey', 'Nested']
+
+
+def plan_ops(plan):
+    """The Coq operations of a history plan (they do not depend on what the implementation does)."""
+    FT, RT = sim_fault_table(), sim_route_table()
+    ops = []
+    for (fi, fwi, ri, rwi) in plan:
+        ops.append(FT[fi % len(FT)]['coq'](F_WHATS[fwi % 4]))
+        ops.append(RT[ri % len(RT)]['coq'](F_WHATS[rwi % 4]))
+    return ops
+
+
+def fault_coq_text(plans):
+    return '\n'.join([F_HEADER] + [f"Eval vm_compute in render_run (run true false None [{'; '.join(plan_ops(p))}])."
+                                   for p in plans]) + '\n'
+
+
+def fault_stream(ctx, rng, tmp, tag, with_model=True, plans=None):
+    """Returns dict(fails, loads, observed=[strings], hist=[...], info)."""
+    plans, info = plans or sim_fault_plans(rng, ctx.thorough)
+    fails, loads, observed, hist = [], 0, [], []
+    for j, plan in enumerate(plans):
+        seed = rng.randint(0, 2 ** 31 - 1)
+        variant = rng.randint(0, 11)
+        try:
+            h = sim_fault_history(seed, variant, plan, tmp, f"{tag}s{j}")
+        except Exception as e:      # the harness itself could not drive this simulation: a finding, not a crash
+            fails.append({'kind': 'Simulation', 'container': 'Simulation', 'case_seed': seed, 'variant': variant,
+                          'plan': [list(q) for q in plan[:1]], 'recipe': 'n/a', 'step': 0,
+                          'history': ['build a computed simulation; to_dict(); first fault/route pair'],
+                          'diff': f"{type(e).__name__}: {str(e)[:300]}",
+                          'signature': f"C17: fault history on Simulation: driving it raised {type(e).__name__}"})
+            continue
+        loads += h['loads']
+        for x in h['fails']:
+            x.update(case_seed=seed, variant=variant, plan=[list(q) for q in plan[:(x['step'] // 2) + 1]],
+                     container='Simulation')
+        fails += h['fails']
+        observed.append(h['observed'])
+        if h['ops'] != plan_ops(plan):
+            raise RuntimeError('fault stream: operations run differ from the planned ones (harness error)')
+        hist.append({'seed': seed, 'variant': variant, 'plan': plan, 'steps': h['steps'], 'ops': h['ops'],
+                     'eval_index': j})
+    info['sim_histories'] = len(plans)
+    info['sim_ops'] = sum(len(h['ops']) for h in hist)
+    info['outcomes'] = {}
+    for o in ';'.join(observed).split(';'):
+        info['outcomes'][o] = info['outcomes'].get(o, 0) + 1
+    ngen = 0
+    for kind in F_GENERIC_KINDS:
+        for rep in range(2 if ctx.thorough else 1):
+            seed = rng.randint(0, 2 ** 31 - 1)
+            variant = rng.randint(0, 5)
+            try:
+                f, n = generic_fault_case(seed, kind, variant, tmp, f"{tag}g{kind}{rep}")
+            except Exception as e:
+                f, n = {'kind': kind, 'history': ['build object; to_dict()'], 'recipe': 'n/a',
+                        'diff': f"{type(e).__name__}: {str(e)[:300]}",
+                        'signature': f"C17: fault history on {kind}: driving it raised {type(e).__name__}"}, 0
+            loads += n
+            ngen += 1
+            if f:
+                f.update(case_seed=seed, variant=variant, container=kind, plan=None)
+                fails.append(f)
+    info['generic_histories'] = ngen
+    return {'fails': fails, 'loads': loads, 'observed': observed, 'hist': hist, 'info': info}
+
+
+def fault_compare(res, fs, dis):
+    """Model (Coq, fixed to_file, io.save of /repo) vs implementation, per history."""
+    rc, out = res['c17_fault']
+    if rc != 0:
+        dis.append({'what': 'fault-path model does not evaluate (coqc failed)', 'log': out[-1500:]})
+        return 0
+    ans = V.eval_answers(out)
+    n = 0
+    for obs, h in zip(fs['observed'], fs['hist']):
+        k = h['eval_index']
+        if k >= len(ans):
+            dis.append({'what': 'missing Eval answer (fault histories)'})
+            break
+        got = parse_coq_string(ans[k]).split(';')
+        exp = obs.split(';')
+        n += len(exp)
+        for i, (g, e) in enumerate(zip(got, exp)):
+            if g != e:
+                dis.append({'what': 'Simulation serialisation entry points and Model/SimToFile.v differ '
+                                    '(outcome X/D[levels] and transient attribute +/- after the operation)',
+                            'signature': f"C17: fault-path model: step '{h['steps'][i][:80]}' observed {e} model {g}",
+                            'case': {'seed': h['seed'], 'variant': h['variant'], 'history': h['steps'][:i + 1][-4:],
+                                     'coq_ops': h['ops'][:i + 1][-4:]},
+                            'impl': e, 'model': g})
+                break
+        if len(got) != len(exp):
+            dis.append({'what': 'fault history: model and implementation have different lengths',
+                        'impl': obs[:300], 'model': ';'.join(got)[:300]})
+    return n
